@@ -137,8 +137,17 @@ def run(c):
         again = validate_small(read_ndjson(po))
         return any(tt[3] == t[3] for _, tt in again)
     seen = c.triage(mism, classify, confirm, per_class=2, total=16)
+    # ---- binding self-test: corrupt one logged code point of an accepted event, TLC must reject exactly that event
+    bad = {i for i, _ in mism}
+    acc = [i for i, x in enumerate(events[:n_explicit]) if '"op":"GutiToStringWithError"' in x[:50] and i not in bad and '"err":false' in x]
+    if acc:
+        i = acc[len(acc) // 2]; e = ev_of(i); e["ots"][0][7] ^= 1
+        r = validate_small([events[i - 1], json.dumps(e), events[i + 1]])
+        hit = [tt for k, tt in r if tt[2] == "GutiToStringWithError"]
+        if not hit:
+            raise Infra("binding self-test failed: a corrupted character in a recorded GutiToStringWithError event was accepted by Trace_C12")
+        c.cov["binding_selftest"] = "flipped one bit of the 8th character of the GUTI text of recorded event %d (GutiToStringWithError): TLC reports %s" % (i, hit[0][3])
     # ---- evidence
-    nd = 0
     for ln in events[:n_explicit]:
         c.count_distinct(ln[:ln.index('"ots"')])
     c.cov["evaluations"] = n_explicit + (5 * (1 << 24) if thorough else 0)
